@@ -338,7 +338,9 @@ def rule_ring(ctx, rep):
         if wsites and dec:
             rep.must_pass("C13.sleep", fl + ".announce≺stop-test≺sleep", w, dec, wsites, lambda i: i in stop_lds,
                           what="the stop flag is tested between the sleep announcement (futex dec) and the futex wait: a stop request that landed before the announcement woke nobody")
-            rep.must_pass("C13.sleep", fl + ".announce≺queue-test≺sleep", w, dec, wsites, lambda i: i in qtests,
+            # (when the re-check is written out in wait_defer the walk of an empty registry reads no head at all: the read of the registry list is the test)
+            reg_rd = [l for l in w.all_insts() if l.op == "load" and l.d.get("ap") and pat.base_global(l.d["ap"]) == "registry_defer"]
+            rep.must_pass("C13.sleep", fl + ".announce≺queue-test≺sleep", w, dec, wsites, lambda i: i in qtests or i in reg_rd,
                           what="the queue heads are tested between the sleep announcement (futex dec) and the futex wait")
         # the sleep re-check must read the word the producer publishes (queue head), not a private snapshot
         rep.touch(nc)
